@@ -126,6 +126,18 @@ func VerifStubParseRows(s *Schema, query *SelectQuery, res *sql.Rows) ([]interfa
 			out = append(out, r)
 		}
 	}
+	if j := strings.Index(st.clause, " LIMIT "); j >= 0 {
+		n := 0
+		for _, ch := range st.clause[j+len(" LIMIT "):] {
+			if ch < '0' || ch > '9' {
+				break
+			}
+			n = n*10 + int(ch-'0')
+		}
+		if len(out) > n {
+			out = out[:n]
+		}
+	}
 	// the rows were read at this instant; the answer takes time to travel back
 	// (a database round trip is a blocking operation: other goroutines may run)
 	nondet.Yield()
